@@ -4,6 +4,7 @@ import (
 	"io"
 
 	jsoniter "github.com/json-iterator/go"
+	"github.com/pkg/errors"
 	"github.com/yandex/pandora/core"
 	"github.com/yandex/pandora/core/coreutil"
 	"github.com/yandex/pandora/lib/ioutil2"
@@ -66,9 +67,15 @@ type JSONAmmoDecoder struct {
 
 func (d *JSONAmmoDecoder) Decode(ammo core.Ammo) error {
 	coreutil.ResetReusedAmmo(ammo)
+	// Nothing but whitespace left means the clean end of the input.
+	// Input that ends after a value has started is a truncated ammo, not the end of the ammo.
+	valueStarted := d.iter.WhatIsNext() != jsoniter.InvalidValue
 	d.iter.ReadVal(ammo)
 	if d.iter.Error != nil {
 		if *d.readErrorPtr != nil {
+			if *d.readErrorPtr == io.EOF && valueStarted {
+				return errors.Wrap(io.ErrUnexpectedEOF, d.iter.Error.Error())
+			}
 			return *d.readErrorPtr
 		}
 		return d.iter.Error
